@@ -147,6 +147,7 @@ class SimTransport(transports.Transport):
     def _pause(self):
         if not self._closing and not self.paused:
             self.paused = True
+            self.net.obs("pause", self.cid)
             self._protocol.pause_writing()
 
     def resume(self):
@@ -155,6 +156,7 @@ class SimTransport(transports.Transport):
     def _resume(self):
         if self.paused:
             self.paused = False
+            self.net.obs("resume", self.cid)
             if not self.lost:
                 self._protocol.resume_writing()
 
@@ -171,6 +173,7 @@ class Net:
         self.on_open = None      # callback(transport) e.g. the simulated console
         self.on_write = None     # callback(transport, data) for every successful write
         self.dgram = []          # datagram endpoints
+        self.pause_next = False  # the next connection opens with a full send buffer (zero window)
         loop.net = self
 
     def obs(self, kind, *rest):
@@ -201,6 +204,9 @@ class Net:
         self.conns.append(t)
         self.obs("open", t.cid)
         protocol.connection_made(t)
+        if self.pause_next:
+            self.pause_next = False
+            t._pause()
         if self.on_open:
             self.on_open(t)
         return t, protocol
